@@ -9,6 +9,7 @@ import (
 	"encoding/binary"
 	"errors"
 	"fmt"
+	"net"
 	"net/netip"
 	"strings"
 	"testing"
@@ -59,6 +60,20 @@ func TestVerif_C07_DataSolo(t *testing.T) {
 		controlling := rapid.Bool().Draw(rt, "controlling")
 		withV6 := rapid.Bool().Draw(rt, "withV6")
 		cfg := simAgentConfig{controlling: controlling, maxBinding: 7, disconnected: time.Hour, keepalive: 0, explicitTimeout: true}
+		// optionally the application refuses endpoint 2's address (remote IP filter): it can never become a remote
+		// candidate, not even a peer-reflexive one, so nothing it sends may reach the reader
+		filterEp2 := rapid.IntRange(0, 2).Draw(rt, "remoteIPFilterRejectsEndpoint2") == 0
+		if filterEp2 {
+			_, rejectedPub := simAddrs(1, 2, 0, false, false, true)
+			cfg.remoteIPFilter = func(ip net.IP) bool {
+				a, _ := netip.AddrFromSlice(ip)
+
+				return a.Unmap() != rejectedPub.Addr()
+			}
+		}
+		// optionally endpoint 1 is signalled late: until then the agent knows it only as peer-reflexive
+		lateSignal := rapid.IntRange(0, 2).Draw(rt, "endpoint1SignalledLate") == 0
+		ep1Signalled := !lateSignal
 		locals := []duoSockSpec{{Kind: simKindHost}, {Kind: simKindRelayish}}
 		eps := []soloEpSpec{{Typ: CandidateTypeHost}, {Typ: CandidateTypeRelay}, {Typ: CandidateTypeHost}}
 		if withV6 {
@@ -80,7 +95,9 @@ func TestVerif_C07_DataSolo(t *testing.T) {
 		}
 		signalAll := func() {
 			_ = s.ag.addRemoteSync(s.epCandidate(0, eps[0]))
-			_ = s.ag.addRemoteSync(s.epCandidate(1, eps[1]))
+			if ep1Signalled {
+				_ = s.ag.addRemoteSync(s.epCandidate(1, eps[1]))
+			}
 			if withV6 {
 				_ = s.ag.addRemoteSync(s.epCandidate(3, eps[3]))
 			}
@@ -205,7 +222,7 @@ func TestVerif_C07_DataSolo(t *testing.T) {
 		}
 		nOps := rapid.IntRange(1, 30).Draw(rt, "nOps")
 		for i := 0; i < nOps; i++ {
-			op := rapid.SampledFrom([]string{"validate", "nominate", "write", "write", "writeToPair", "inject", "inject", "inject", "restart", "toggleWriteFault"}).Draw(rt, "op")
+			op := rapid.SampledFrom([]string{"validate", "nominate", "write", "write", "writeToPair", "inject", "inject", "inject", "restart", "toggleWriteFault", "checkFromEndpoint2", "signalLate"}).Draw(rt, "op")
 			if op == "restart" && rapid.IntRange(0, 2).Draw(rt, "reallyRestart") != 0 {
 				op = "write"
 			}
@@ -398,6 +415,29 @@ func TestVerif_C07_DataSolo(t *testing.T) {
 				s.w.mu.Lock()
 				s.w.inflight = nil // a STUN-like injection may have been answered; not the subject here
 				s.w.mu.Unlock()
+			case "checkFromEndpoint2":
+				// an authentic connectivity check from the never-signalled endpoint 2 (peer-reflexive discovery,
+				// unless the remote IP filter refuses the address)
+				to := s.ag.socks[rapid.IntRange(0, 1).Draw(rt, "to")]
+				s.peerRequest(s.eps[2], to, false, nil, 100, peerRole, 77)
+				s.purgeNonRequests()
+				s.w.mu.Lock()
+				s.w.inflight = nil
+				s.w.mu.Unlock()
+				if filterEp2 {
+					lbl["authentic-check-from-filtered-address"] = true
+				}
+				s.ops = append(s.ops, fmt.Sprintf("checkFromEndpoint2(→%s filtered=%v)", to.name(), filterEp2))
+			case "signalLate":
+				if ep1Signalled {
+					continue
+				}
+				ep1Signalled = true
+				if sp := s.ag.selectedPair(); sp != nil && sp.Remote.addrPort() == s.eps[1].pub && sp.Remote.Type() == CandidateTypePeerReflexive {
+					lbl["selected-prflx-remote-superseded"] = true
+				}
+				_ = s.ag.addRemoteSync(s.epCandidate(1, eps[1]))
+				s.ops = append(s.ops, "signalLate(ep1)")
 			case "toggleWriteFault":
 				if sp := s.ag.selectedPair(); sp != nil {
 					if l := s.ag.sockByLocal(sp.Local); l != nil {
@@ -438,7 +478,7 @@ func TestVerif_C07_DataSolo(t *testing.T) {
 		for l := range lbl {
 			labels = append(labels, l)
 		}
-		nontrivial := lbl["write-before-selection"] || lbl["foreign-source"] || lbl["stun-like-payload"] || lbl["re-selection"]
+		nontrivial := lbl["write-before-selection"] || lbl["foreign-source"] || lbl["stun-like-payload"] || lbl["re-selection"] || lbl["selected-prflx-remote-superseded"] || lbl["authentic-check-from-filtered-address"]
 		desc := fmt.Sprintf("controlling=%v v6=%v ops=%s", controlling, withV6, strings.Join(s.ops, "; "))
 		st.Record(vfHashStr(desc), nontrivial, labels...)
 		if nontrivial && st.WantSample() {
